@@ -90,6 +90,8 @@ ClosestOK(k) == /\ idx[k] + 1 \in IX
                 /\ \A j \in IX : \/ Dist(x[idx[k] + 1], q[k]) < Dist(x[j], q[k])
                                  \/ (Dist(x[idx[k] + 1], q[k]) = Dist(x[j], q[k]) /\ idx[k] + 1 <= j)
 AlgoCorrect == pc = "Done" => \A k \in IQ : IF kind = "lower" THEN LowerOK(k) ELSE IF kind = "higher" THEN HigherOK(k) ELSE ClosestOK(k)
+NeverDone == pc # "Done"
 CInit32 == NX = 3 /\ NQ = 2
 CInit43 == NX = 4 /\ NQ = 3
+CInit53 == NX = 5 /\ NQ = 3
 =============================================================================
